@@ -155,8 +155,28 @@ def build_value(spec, root):
     if t == 'posting':
         return models.Posting.from_value(spec['acc'], decimal.Decimal(spec['num']) if spec['num'] is not None else None,
                                          spec['cur'], indent=spec['indent'])
+    if t == 'tok-at':
+        toks = list(root.token_store)
+        if spec['i'] >= len(toks):
+            raise DonorError('token index out of range')
+        return toks[spec['i']]
     if t == 'ref':
         return intro.resolve(root, spec['path'])
+    if t == 'foreign':
+        # a node that lives inside ANOTHER document / free-standing model (often at the very edge of that store)
+        if spec['cls'] == 'make:posting':
+            host = models.Posting.from_value('Assets:A', decimal.Decimal(1), 'USD', meta={'k': decimal.Decimal(1), 'j': 'x'})
+        elif spec['cls'] == 'make:txn':
+            host = models.Transaction.from_value(datetime.date(2000, 1, 1), None, 'n', postings=[
+                models.Posting.from_value('Assets:A', decimal.Decimal(1), 'USD'), models.Posting.from_value('Assets:B', None, None)])
+        elif spec['cls'] == 'make:open':
+            host = models.Open.from_value(datetime.date(2000, 1, 1), 'Assets:A', ['USD', 'EUR'])
+        else:
+            host = P().parse(spec['text'], getattr(models, spec['cls']))
+        node = intro.resolve(host, spec['path'])
+        _KEEP.append(host)
+        del _KEEP[:-50]
+        return node
     if t == 'copy':
         return copy.deepcopy(intro.resolve(root, spec['path']))
     if t == 'list':
@@ -403,8 +423,19 @@ def _gen_model_op(r, root, path, m, sp, malformed):
         kind, tys = fields[f]
         if api['rep'][name][1] and r.random() < 0.12 and not sp:
             meth = r.choice(['claim_interleaving_comments', 'unclaim_interleaving_comments', 'unclaim_interleaving_comments'])
+            args = []
+            if r.random() < 0.45:
+                # named comments: some that the call can find, and (refusal stream) one it cannot
+                want_claimed = meth.startswith('unclaim')
+                idx = [i for i, t in enumerate(root.token_store) if isinstance(t, models.BlockComment) and bool(t.claimed) == want_claimed]
+                picks = r.sample(idx, min(len(idx), r.choice([1, 1, 2, 3])))
+                named = [{'t': 'tok-at', 'i': i} for i in picks]
+                if malformed and r.random() < 0.5:
+                    named.insert(r.randrange(len(named) + 1), {'t': 'bc', 'v': 'stranger', 'indent': ''})
+                if named:
+                    args = [{'t': 'list', 'items': named}]
             return {'k': 'call', 'kind': 'claim-inter' if meth.startswith('claim') else 'unclaim-inter', 'path': path, 'attr': name,
-                    'm': meth, 'args': [], 'parent': []}
+                    'm': meth, 'args': args, 'parent': []}
         return _gen_list_op(r, root, path, m, name, tys, sp, malformed, raw=True)
     if c == 'view':
         return _gen_view_op(r, root, path, m, name, sp, malformed)
@@ -461,8 +492,43 @@ def _gen_model_op(r, root, path, m, sp, malformed):
     return None
 
 
+_KEEP = []
+_TWO = '2000-01-01 open Assets:A USD, EUR\n2000-01-02 close Assets:A'
+FOREIGN = [
+    # (class of the node, host text, host class, path)   - first or last token of the host store, or interior
+    ('Currency', '2000-01-01 open Assets:A USD, EUR', 'Open', ['raw_currencies', 1]),
+    ('Currency', '2000-01-01 open Assets:A USD, EUR', 'Open', ['raw_currencies', 0]),
+    ('Date', '2000-01-01 open Assets:A USD', 'Open', ['raw_date']),
+    ('Account', '2000-01-02 close Assets:A', 'Close', ['raw_account']),
+    ('Close', _TWO, 'File', ['raw_directives', 1]),
+    ('Open', _TWO, 'File', ['raw_directives', 0]),
+    ('Open', _TWO + '\n', 'File', ['raw_directives', 0]),
+    ('MetaItem', '', 'make:posting', ['raw_meta', 1]),
+    ('MetaItem', '', 'make:posting', ['raw_meta', 0]),
+    ('Posting', '', 'make:txn', ['raw_postings', 1]),
+    ('Currency', '', 'make:open', ['raw_currencies', 1]),
+    ('Account', '', 'make:posting', ['raw_account']),
+    ('MetaItem', '2000-01-01 open Assets:A\n  kk: 1\n  jj: 2', 'Open', ['raw_meta', 0]),
+    ('Posting', '2000-01-01 *\n  Assets:A  1 USD\n  Assets:B', 'Transaction', ['raw_postings', 1]),
+    ('Posting', '2000-01-01 *\n  Assets:A  1 USD\n  Assets:B', 'Transaction', ['raw_postings', 0]),
+    ('NumberExpr', '1 + 2 USD', 'Amount', ['raw_number']),
+    ('Amount', '2000-01-01 price USD 1 EUR', 'Price', ['raw_amount']),
+    ('Tag', '2000-01-01 * "a" #t ^l', 'Transaction', ['raw_tags_links', 0]),
+    ('Link', '2000-01-01 * "a" #t ^l', 'Transaction', ['raw_tags_links', 1]),
+    ('EscapedString', '2000-01-01 note Assets:A "x"', 'Note', ['raw_comment']),
+    ('BlockComment', '; c\n2000-01-02 close Assets:A', 'File', ['raw_directives_with_comments', 0]),
+]
+
+
 def _attached_ref(r, root, tys):
-    """A spec referring to an attached node of a compatible type (for the refusal stream)."""
+    """A spec referring to an attached node of a compatible type (for the refusal stream): somewhere in this document,
+    or inside another document / free-standing model."""
+    if r.random() < 0.35:
+        names = {t.__name__ for t in tys} if tys else None
+        cands = [f for f in FOREIGN if names is None or f[0] in names]
+        if cands:
+            f = r.choice(cands)
+            return {'t': 'foreign', 'cls': f[2], 'text': f[1], 'path': f[3]}
     cands = [list(p) for p, m in intro.walk_api(root) if p and isinstance(m, tuple(tys) or (base.RawModel,))]
     if not cands:
         return None
